@@ -72,6 +72,23 @@ def gen(rnd, maxlen=30):
     return L
 
 
+def gen_tables(rnd, maxlen=30):
+    """Table-heavy variant: steps and examples followed by rows of varying cell counts (ragged tables at known rows)."""
+    rows = [IDX[t] for t in ("| a | b |", "| c |", "|d|e|", "||", "| x \\")]
+    heads = [IDX[t] for t in ("Given x", "And y", "Examples: X", "Scenarios:", "* z")]
+    others = [IDX[t] for t in ("# comment", "", "Scenario: S", "Scenario Outline: O", "@t1 @t2", "free text", '"""', "Rule: R", "Background: B")]
+    L = [(0, IDX["Feature: F"]), (2, IDX["Scenario Outline: O"])]
+    while len(L) < rnd.randint(4, maxlen):
+        c = rnd.random()
+        if c < 0.25:
+            L.append((4, rnd.choice(heads)))
+        elif c < 0.8:
+            L.append((rnd.choice([4, 6, 6, 7]), rnd.choice(rows)))
+        else:
+            L.append((rnd.choice([0, 2, 4]), rnd.choice(others)))
+    return L
+
+
 def text_of(L, nl="\n", final=True):
     s = nl.join(" " * i + POOL[p].text for i, p in L)
     return s + (nl if final else "")
